@@ -221,7 +221,8 @@ def run(sc, detail_rhs=False, keep_system=False):
                 t_goal = op.get("t") if op.get("t") is not None else system.tf
                 err = None
                 try:
-                    system.integrate(t=op.get("t"), events=evs, callback=cbs)
+                    with traced.wall_clock(float(sc.get("wall_limit", 240.0))):
+                        system.integrate(t=op.get("t"), events=evs, callback=cbs)
                 except KeyboardInterrupt as e:
                     err = e
                 except traced.BudgetExceeded as e:
@@ -611,7 +612,8 @@ def run_plain(sc):
                 opcalls[0] = 0
                 fault_at[0] = op.get("fault")
                 try:
-                    system.integrate(t=op.get("t"), events=evs, callback=cbs)
+                    with traced.wall_clock(float(sc.get("wall_limit", 240.0))):
+                        system.integrate(t=op.get("t"), events=evs, callback=cbs)
                 except de.exception_types.FailedIntegration:
                     if fault_at[0] is None:
                         raise
